@@ -54,6 +54,11 @@ CLAIMED = {
    text="Matcher: every state x query name of the exhaustive graph through real Exists/ServeDNS (null route for A/AAAA, empty authoritative answer otherwise, downstream untouched when blocked). Persistence: every interleaving edge of 2 writers (3 simulated) forced on real goroutines, the directory checked after every step, every crash point reloaded (the whole directory, as New() walks it), convergence after completion, plus concurrent API stress.",
    design_ref="2.7",
    note="Entries are LDH labels (no root entry, no escaped dots); crash points at gate granularity (per written line, not per byte); fsync durability and I/O error paths are not modelled. One defect found and repaired (fix: aff16bb leftover temp file loaded at start)."),
+ "C07": dict(
+   technique="TLA+ spec Bailiwick.tla (zone tree with an adversarial authoritative server; the adversary's moves per exchange as action parameters; the resolver's ID/question match, delegation extraction, glue, referral and cacheability filters as actions) model-checked with TLC (Containment and its clauses; ten one-filter-off regression configs that must fail); TLC-enumerated single- and two-move attack scripts played by scripted loopback servers against the real full pipeline, followed by victim queries; oracle = ground truth of the honest zones",
+   text="85 single-move and 7,225 two-move scripts (pre-datagrams with wrong ID/question incl. over TCP, foreign answer/authority/additional records, out-of-zone CNAME continuation, seven bad referral kinds, four glue variants) x unsigned / signed+CD=1 x qname-minimisation, each on a fresh resolver: foreign-owned answer records must equal their owner's truth, later victim queries return truth or SERVFAIL, unmatched datagrams leave no trace, trap/loopback/local-interface addresses are never dialled.",
+   design_ref="2.12",
+   note="One defect found and repaired (fix: 2cb5269 foreign answer records relayed). IPv6 glue is not exercised (IPv6Access off); NS-address lookups below Z and DNAME are not expanded; time-dependent ghost-domain cases belong to C08."),
 }
 
 NOT_YET = {}
